@@ -72,9 +72,11 @@ struct Reg { Reg(const char* n, const char* p, bool seq, void (*b)()) { register
 int main_driver(int argc, char** argv);
 }  // namespace vmcrt
 
+// VMC_EXEC_BEGIN / VMC_EXEC_END come from prelude.hpp (ThreadSanitizer flavour: order executions after one another)
 #define VMC_HARNESS(NAME, PROPS)                                              \
   static void vmc_body_##NAME();                                              \
-  static ::vmcrt::Reg vmc_reg_##NAME(#NAME, PROPS, false, &vmc_body_##NAME);  \
+  static void vmc_wrap_##NAME() { VMC_EXEC_BEGIN(); vmc_body_##NAME(); VMC_EXEC_END(); } \
+  static ::vmcrt::Reg vmc_reg_##NAME(#NAME, PROPS, false, &vmc_wrap_##NAME);  \
   static void vmc_body_##NAME()
 #define VMC_SEQ_HARNESS(NAME, PROPS)                                          \
   static void vmc_body_##NAME();                                              \
